@@ -86,6 +86,7 @@ type c20Obs struct {
 	Readded  map[string]c20Mark `json:"readded"`
 	Final    map[string]c20Get  `json:"final"`
 	Posted   map[string]*h1.PT  `json:"posted"`
+	Scales   []int32            `json:"scale_requests,omitempty"`
 	Deadlock bool               `json:"deadlock,omitempty"`
 	Horizon  bool               `json:"horizon,omitempty"`
 	Panic    string             `json:"panic,omitempty"`
@@ -251,7 +252,9 @@ func c20Run(x *vrt.X, sc c20Scenario, hashes map[string]uint64, info *prom.Confi
 		return o
 	}
 	// one real coordination cycle with the explorer as estimate source: one empty in-sync shard
-	hsc := &h1.Scenario{Opt: h1.Opt{MaxProc: 1000, MaxShard: 9, IdleSec: 0}}
+	// the limit is chosen so that t1 alone (total 10), t2 alone (14) and t1+t3 fit one shard, t1+t2 (24) do not: the
+	// first assignment must reckon with the probes' sample counts
+	hsc := &h1.Scenario{Opt: h1.Opt{MaxProc: 24, MaxShard: 9, IdleSec: 0}}
 	for _, n := range names {
 		hsc.Targets = append(hsc.Targets, h1.Tgt{Hash: hashes[n], Job: "A", Discovered: true})
 	}
@@ -262,6 +265,7 @@ func c20Run(x *vrt.X, sc c20Scenario, hashes map[string]uint64, info *prom.Confi
 	if co.Panic != "" {
 		o.Panic = co.Panic
 	}
+	o.Scales = append([]int32{}, co.Reps[0].Scales...)
 	if p := h1.TargetsPost(co.Reps[0].Reqs[0]); p != nil {
 		for h, pt := range h1.Posted(p) {
 			pt := pt
@@ -299,6 +303,19 @@ func c20Oracle(sc c20Scenario, o *c20Obs) []Finding {
 		kept[n] = int64(k)
 	}
 	names := c20Names(sc.Targets)
+	{
+		var sum int64
+		var posted []string
+		for _, n := range names {
+			if o.Posted[n] != nil {
+				sum += kept[n] + 3
+				posted = append(posted, n)
+			}
+		}
+		if sum >= 24 {
+			add("first-assignment", "C20:first-assignment-ignores-estimates", fmt.Sprintf("targets %v (total series %d by their successful probes) were all placed on one shard with a process limit of 24", posted, sum))
+		}
+	}
 	for ti, n := range names {
 		var ps []c20Probe
 		for _, p := range o.Probes {
@@ -420,7 +437,25 @@ func c20Oracle(sc c20Scenario, o *c20Obs) []Finding {
 				add("first-assignment", "C20:assigned-wrong-estimate", fmt.Sprintf("target %s assigned with series %d, the successful probe kept %d", n, pt.Series, kept[n]))
 			}
 		} else if stillThere && !readded && succ >= 0 && asked {
-			add("first-assignment", "C20:not-assigned", fmt.Sprintf("target %s has a successful probe but was not assigned in the following cycle", n))
+			// not placed: fine only when it does not fit next to what was placed (then more room is asked for)
+			var placed int64
+			for _, m := range names {
+				if o.Posted[m] != nil {
+					placed += kept[m] + 3
+				}
+			}
+			up := false
+			for _, sreq := range o.Scales {
+				if sreq > 1 {
+					up = true
+				}
+			}
+			switch {
+			case placed+kept[n]+3 < 24:
+				add("first-assignment", "C20:not-assigned", fmt.Sprintf("target %s has a successful probe and fits the shard (placed %d, its total %d, limit 24) but was not assigned in the following cycle", n, placed, kept[n]+3))
+			case !up:
+				add("first-assignment", "C20:not-assigned:no-scale-up", fmt.Sprintf("target %s has a successful probe, does not fit next to the placed ones, and no further shard was requested (%v)", n, o.Scales))
+			}
 		}
 	}
 	return fs
@@ -595,6 +630,30 @@ func c20RealProbes(c *chk.Ctx, info *prom.ConfigInfo, hashes map[string]uint64, 
 				r.Violate("C20:real-probe:estimate-with-stale-config", "estimate-from-success", fmt.Sprintf("after %d configuration load(s) the probe of a 12-sample target gives kept/total %d/%d, the current rules keep %d (err=%v)", len(order), se, to, wantKept, err), int64(len(order)),
 					&c20Replay{Property: "C20", Clause: "estimate-from-success", Detail: fmt.Sprintf("%d loads, last drops m0: %v", len(order), last == infoDrop)})
 			}
+		}
+	}
+	// a probe response that reaches the parser in several blocks (about 150 KiB): the estimate is its sample count
+	{
+		const nBig = 9000
+		sm := kscrape.New(true, h1Quiet())
+		_ = sm.ApplyConfig(info)
+		net := &rig.Targets{}
+		net.Serve = func(req *http.Request) rig.Answer { return rig.Answer{Body: rig.Payload(nBig)} }
+		sm.GetJob("A").Cli = &http.Client{Transport: net}
+		e := explore.New(sm, prometheus.NewRegistry(), h1Quiet())
+		_ = e.ApplyConfig(info)
+		e.UpdateTargets(map[string][]*discovery.SDTargets{"A": {sd["t1"]}})
+		err := e.VerifProbeOnce(hashes["t1"])
+		st := e.Get(hashes["t1"])
+		r.States++
+		r.Transitions++
+		if err != nil || st == nil || st.Series != nBig || st.TotalSeries != nBig {
+			se, to := int64(-1), int64(-1)
+			if st != nil {
+				se, to = st.Series, st.TotalSeries
+			}
+			r.Violate("C20:real-probe:large-response-estimate", "estimate-from-success", fmt.Sprintf("probe response of %d samples in several parser blocks: estimate %d / %d (err=%v)", nBig, se, to, err), 0,
+				&c20Replay{Property: "C20", Clause: "estimate-from-success", Detail: "9000 samples, about 150 KiB"})
 		}
 	}
 	body := rig.Payload(12)
